@@ -84,7 +84,7 @@ func sizeClass(n int) string {
 }
 
 func emptyModel(maxBox int) *mDB {
-	d := &mDB{MB: make([]mBox, maxBox), NextBox: 1, Msgs: map[string]mMsg{}, Settings: "null"}
+	d := &mDB{MB: make([]mBox, maxBox), NextBox: 1, Msgs: msgMap{}, Settings: "null"}
 	for i := range d.MB {
 		d.MB[i].Next = 1
 	}
@@ -209,7 +209,7 @@ func (rp *replayer) judge(idx int, a *act, rep reply) *finding {
 
 // checkState reads the raw tables and compares them with the model state exp.
 func (rp *replayer) checkState(idx int, op string, n int, exp *mDB, when string) *finding {
-	got, soft, err := rp.w.readRaw(exp)
+	got, softRel, soft, err := rp.w.readRaw(exp)
 	if err != nil {
 		return &finding{machinery: true, detail: fmt.Sprintf("raw read after step %d: %v", idx+1, err), step: idx}
 	}
@@ -217,18 +217,8 @@ func (rp *replayer) checkState(idx int, op string, n int, exp *mDB, when string)
 	rp.st.stateCmp++
 	rp.st.mu.Unlock()
 	_, _ = rp.w.dataVersion()
-	what, detail := "", ""
-	if soft != "" {
-		what, detail = "rows", soft
-		if strings.HasPrefix(soft, "remote-id-copy") {
-			what = "mailbox_rows.remote_id_copy"
-		} else if i := strings.Index(soft, ":"); i > 0 && !strings.Contains(soft[:i], " ") {
-			what = soft[:i]
-		}
-		if strings.Contains(soft, "clones") {
-			what = "clone-groups-torn"
-		}
-	} else {
+	what, detail := softRel, soft
+	if soft == "" {
 		what, detail = diffDB(exp, got)
 	}
 	if what == "" {
@@ -423,6 +413,9 @@ func (rp *replayer) run() (machinery error) {
 			stop(j)
 			return nil
 		}
+		if panicked != nil && panicked != errAbort {
+			return fmt.Errorf("harness panic inside the Write callback: %v", panicked)
+		}
 		endOp := end.Act.Op
 		switch {
 		case endOp == "Commit" && (werr != nil || panicked != nil):
@@ -516,7 +509,14 @@ type family struct {
 	workers int
 }
 
-func runFamilies(r *ev.Run, fams []family, timeout time.Duration) (universe map[string]bool, ok bool) {
+// famInfo: what one exhaustive family run found
+type famInfo struct {
+	cfg    string
+	labels map[string]label
+	states int64
+}
+
+func runFamilies(r *ev.Run, fams []family, timeout time.Duration) (universe map[string]bool, infos []*famInfo, ok bool) {
 	universe = map[string]bool{}
 	var mu sync.Mutex
 	var wg sync.WaitGroup
@@ -527,6 +527,7 @@ func runFamilies(r *ev.Run, fams []family, timeout time.Duration) (universe map[
 		wg.Add(1)
 		go func(f family) {
 			defer wg.Done()
+			info := &famInfo{cfg: f.cfg, labels: map[string]label{}}
 			res, err := tlc.Run(tlc.Options{SpecDir: specDir(), Module: "GluonDB", Cfg: filepath.Join(specDir(), "cfg", f.cfg),
 				Workers: f.workers, Timeout: timeout, KeepOutput: true, HeapGB: 6,
 				OnJSON: func(raw []byte) {
@@ -534,6 +535,7 @@ func runFamilies(r *ev.Run, fams []family, timeout time.Duration) (universe map[
 					if json.Unmarshal(raw, &l) == nil && l.Op != "" {
 						mu.Lock()
 						universe[l.key()] = true
+						info.labels[l.key()] = l
 						mu.Unlock()
 					}
 				}})
@@ -552,6 +554,8 @@ func runFamilies(r *ev.Run, fams []family, timeout time.Duration) (universe map[
 			}
 			states += res.Distinct
 			transitions += res.Generated
+			info.states = res.Distinct
+			infos = append(infos, info)
 			detail[f.cfg] = map[string]any{"distinct_states": res.Distinct, "transitions": res.Generated, "depth": res.Depth, "wall_s": res.Wall.Seconds()}
 		}(f)
 	}
@@ -559,7 +563,84 @@ func runFamilies(r *ev.Run, fams []family, timeout time.Duration) (universe map[
 	r.Set("states", states)
 	r.Set("transitions", transitions)
 	r.Set("exhaustive_runs", detail)
-	return universe, ok
+	return universe, infos, ok
+}
+
+// directed asks TLC for the shortest behaviour of a family that takes the label and ends outside a transaction
+// (invariant NotReached of GluonDB.tla, counterexample written with -dumpTrace).
+func directed(infos []*famInfo, key string, timeout time.Duration) (*behaviour, error) {
+	var best *famInfo
+	for _, in := range infos {
+		if _, ok := in.labels[key]; ok && (best == nil || in.states < best.states) {
+			best = in
+		}
+	}
+	if best == nil {
+		return nil, fmt.Errorf("no family run printed the label %s", key)
+	}
+	l := best.labels[key]
+	raw, err := os.ReadFile(filepath.Join(specDir(), "cfg", best.cfg))
+	if err != nil {
+		return nil, err
+	}
+	var out []string
+	for _, line := range strings.Split(string(raw), "\n") {
+		t := strings.TrimSpace(line)
+		switch {
+		case strings.HasPrefix(t, "ACTION_CONSTRAINT"), strings.HasPrefix(t, "PROPERTIES"):
+			continue
+		case strings.HasPrefix(t, "INVARIANTS"):
+			line = "INVARIANTS NotReached"
+		case strings.HasPrefix(t, "EmitLabels"):
+			line = "  EmitLabels = FALSE"
+		case strings.HasPrefix(t, "TgtOp"):
+			line = fmt.Sprintf("  TgtOp = %q", l.Op)
+		case strings.HasPrefix(t, "TgtCls"):
+			line = fmt.Sprintf("  TgtCls = %q", l.Cls)
+		case strings.HasPrefix(t, "TgtN"):
+			line = fmt.Sprintf("  TgtN = %d", l.N)
+		case strings.HasPrefix(t, "TgtK"):
+			line = fmt.Sprintf("  TgtK = %d", l.K)
+		case strings.HasPrefix(t, "TgtV"):
+			line = fmt.Sprintf("  TgtV = %q", l.V)
+		}
+		out = append(out, line)
+	}
+	res, err := tlc.Run(tlc.Options{SpecDir: specDir(), Module: "GluonDB", CfgText: strings.Join(out, "\n"),
+		Workers: 3, Timeout: timeout, KeepOutput: true, HeapGB: 6, DumpTrace: "witness.json"})
+	if err != nil {
+		return nil, err
+	}
+	if res.Violated != "NotReached" || len(res.TraceJSON) == 0 {
+		return nil, fmt.Errorf("directed search for %s in %s: violated=%q error=%q timeout=%v\n%s", key, best.cfg, res.Violated, res.Error, res.TimedOut, tail(res.Output, 1500))
+	}
+	var dump struct {
+		Counterexample struct {
+			State [][]json.RawMessage `json:"state"`
+		} `json:"counterexample"`
+	}
+	if err := json.Unmarshal(res.TraceJSON, &dump); err != nil {
+		return nil, fmt.Errorf("directed search for %s: trace does not decode: %v", key, err)
+	}
+	b := &behaviour{}
+	for i, st := range dump.Counterexample.State {
+		if i == 0 || len(st) != 2 {
+			continue // the initial state
+		}
+		var v struct {
+			Last act             `json:"last"`
+			Tx   string          `json:"tx"`
+			DB   json.RawMessage `json:"db"`
+		}
+		if err := json.Unmarshal(st[1], &v); err != nil {
+			return nil, fmt.Errorf("directed search for %s: state %d does not decode: %v", key, i+1, err)
+		}
+		b.Trace = append(b.Trace, &step{Act: v.Last, Tx: v.Tx, DB: v.DB})
+	}
+	if len(b.Trace) == 0 {
+		return nil, fmt.Errorf("directed search for %s: empty behaviour", key)
+	}
+	return b, nil
 }
 
 func tail(s string, n int) string {
@@ -625,7 +706,7 @@ func tierOf(tier string) tierCfg {
 	}
 	return tierCfg{
 		families:   []family{{"GluonDB.mailbox.quick.cfg", 2}, {"GluonDB.message.quick.cfg", 2}, {"GluonDB.membership.quick.cfg", 2}},
-		famTimeout: 3 * time.Minute, generators: 2, perGen: 110, workers: 6, budget: 55 * time.Second}
+		famTimeout: 3 * time.Minute, generators: 2, perGen: 150, workers: 6, budget: 55 * time.Second}
 }
 
 func run(r *ev.Run, tier, replay string) {
@@ -649,10 +730,11 @@ func run(r *ev.Run, tier, replay string) {
 
 	// (a) exhaustive family runs, in the background
 	var universe map[string]bool
+	var infos []*famInfo
 	famOK := false
 	famDone := make(chan struct{})
 	go func() {
-		universe, famOK = runFamilies(r, tc.families, tc.famTimeout)
+		universe, infos, famOK = runFamilies(r, tc.families, tc.famTimeout)
 		close(famDone)
 	}()
 
@@ -701,23 +783,64 @@ func run(r *ev.Run, tier, replay string) {
 	if !famOK {
 		return
 	}
-	// thorough: every label of the bounded model must be executed; go on with further (small) behaviours until it is
-	rounds := 0
-	for tier == "thorough" && rounds < 6 && time.Since(start) < tc.budget {
+	// thorough: every label of the bounded model must be executed. First more (small) random behaviours, then, for
+	// what is still missing, the shortest witness behaviour of each label straight from TLC.
+	missingNow := func() []string {
 		st.mu.Lock()
-		missing := 0
+		defer st.mu.Unlock()
+		var out []string
 		for k := range universe {
-			if st.shapes[k] == 0 && st.blocked[k] == 0 {
-				missing++
+			if st.shapes[k] == 0 {
+				out = append(out, k)
 			}
 		}
-		st.mu.Unlock()
-		if missing == 0 {
-			break
-		}
+		sort.Strings(out)
+		return out
+	}
+	rounds := 0
+	for tier == "thorough" && rounds < 2 && time.Since(start) < tc.budget && len(missingNow()) > 0 {
 		rounds++
 		batch(rounds, tc.extra, true)
 	}
+	witnesses := 0
+	if tier == "thorough" || time.Since(start) < tc.budget {
+		miss := missingNow()
+		sem := make(chan struct{}, 3)
+		var dwg sync.WaitGroup
+		rnd := rand.New(rand.NewSource(seed))
+		var dmu sync.Mutex
+		for _, k := range miss {
+			dwg.Add(1)
+			go func(k string) {
+				defer dwg.Done()
+				sem <- struct{}{}
+				defer func() { <-sem }()
+				dt := 90 * time.Second
+				if tier == "thorough" {
+					dt = 8 * time.Minute
+				}
+				b, err := directed(infos, k, dt)
+				if err != nil {
+					if tier == "thorough" {
+						r.Machinery("%v", err)
+					} else {
+						r.Add("directed_searches_unfinished", 1)
+					}
+					return
+				}
+				dmu.Lock()
+				pl := makePlan(rnd, true, b)
+				witnesses++
+				dmu.Unlock()
+				replayOne(r, st, b, pl)
+				smu.Lock()
+				nb++
+				smu.Unlock()
+			}(k)
+		}
+		dwg.Wait()
+	}
+	r.Set("directed_witness_behaviours", witnesses)
 	r.Set("extra_rounds_for_label_coverage", rounds)
 	report(r, st, universe, nb, simStates, exhausted, tier)
 }
